@@ -324,6 +324,19 @@ func evalPure(cs caseT) *evalOut {
 			ctx = "after-container-value"
 		}
 	}
+	// REMOVE_VAL whose Value is byte-equal to a container an earlier op of the same list wrote:
+	// its own signature family (known finding C13-F9), so that every other list-vs-sequence
+	// difference keeps the plain signatures
+	for i, op := range ops {
+		if op.Kind != opRemoveVal || len(op.Value) == 0 || !(isMapCode(op.Value[0]) || isArrCode(op.Value[0])) {
+			continue
+		}
+		for _, prev := range ops[:i] {
+			if (prev.Kind == opSet || prev.Kind == opAppend || prev.Kind == opPrepend) && bytes.Equal(prev.Value, op.Value) {
+				ctx = "removeval-of-container-written-by-same-patch"
+			}
+		}
+	}
 	switch {
 	case chainFail != 0:
 		if e.full.cls != chainFail {
@@ -394,6 +407,10 @@ func fixedCases() []caseT {
 	add(cd(condLT, "Counter", i32(2)), op(opInc, "Counter", i32(1)))
 	add(nil, op(opInc, "Small", []byte{0xd0, 1}), op(opPrepend, "Tags[]", str("z")), op(opRemoveVal, "Tags", str("a")), op(opRemoveAt, "Tags[0]", nil),
 		op(opMerge, "M", mp([]byte{0x82}, str("x"), []byte{0x02}, str("y"), []byte{0x03})), op(opDelete, "Score", nil))
+	// known finding C13-F9: a container appended and removed by value inside one patch
+	kx := mp([]byte{0x81}, str("k"), []byte{0x02})
+	add(nil, op(opAppend, "Tags[]", kx), op(opRemoveVal, "Tags", kx))
+	add(nil, op(opSet, "Fresh", []byte{0x90}), op(opPrepend, "Fresh[]", kx), op(opRemoveVal, "Fresh", kx), op(opSet, "Fresh[0]", str("v")))
 	add(nil, op(opInc, "Counter", encFloat64(1))) // cross-class delta
 	add(nil, op(opRemoveAt, "Tags[5]", nil))
 	add(nil, op(opSet, "A.B.C", []byte{0x01}), op(opSet, "ClaimedBy", str("x")), op(opMerge, "Tags", []byte{0x80}))
